@@ -146,7 +146,7 @@ make_image (pixman_format_code_t code, int w, int h, uint8_t *bits, int stride, 
 }
 
 /* one OP_SRC composite of w x 1 pixels: source pixel (sx, sy) lands on destination pixel (dx, 0).
- * pres[0]: 's' scanline reader (no transform), 'p' single-pixel reader (integer translation
+ * pres[0]: 'g' general affine matrix + component-alpha flag (see below), 's' scanline reader (no transform), 'p' single-pixel reader (integer translation
  * transform, nearest filter: the request is shifted back by the same amount);
  * pres[1]: 'd' direct, 'a' accessors on the image of format F (fa: on the source, da: on the destination) */
 static void
@@ -160,7 +160,19 @@ run_src (pixman_format_code_t scode, int sw, int sh, uint8_t *sbits, int sstride
     int rx = sx;
     if (rep)
 	pixman_image_set_repeat (s, PIXMAN_REPEAT_NORMAL);
-    if (pixel)
+    if (pixel == 2)
+    {
+	/* 'g': a general affine matrix (one unit of shear: the same pixels of a one-row image are sampled) through the
+	 * fetchers for arbitrary affine transforms, with the component-alpha flag set on the image (it has no meaning for a
+	 * source and must not change what is read) */
+	pixman_transform_t t;
+	pixman_transform_init_identity (&t);
+	t.matrix[0][1] = 1;
+	pixman_image_set_transform (s, &t);
+	pixman_image_set_filter (s, PIXMAN_FILTER_NEAREST, NULL, 0);
+	pixman_image_set_component_alpha (s, 1);
+    }
+    else if (pixel)
     {
 	pixman_transform_t t;
 	pixman_transform_init_translate (&t, pixman_int_to_fixed (3), 0);
@@ -231,7 +243,7 @@ main (int argc, char **argv)
 	    {
 		uint8_t *s2 = dup_buf (src, slen), *d2 = dup_buf (dst, dlen);
 		if (fscanf (in, "%7s", pres) != 1) return 3;
-		run_src (fcode, simgw, simgh, s2, sstride, pal, pres[1] == 'a', rep, pres[0] == 'p',
+		run_src (fcode, simgw, simgh, s2, sstride, pal, pres[1] == 'a', rep, pres[0] == 'g' ? 2 : pres[0] == 'p',
 			 ccode, dimgw, d2, dlen, 0, 0, sx, sy, dx, w);
 		fprintf (vt_out, "%s{\"p\":\"%s\"", k ? "," : "", pres);
 		vt_bytes ("after", d2, dlen);
